@@ -156,18 +156,27 @@ func runGated(c *C15Case, st *Stats) error {
 	}
 	controllerDone := make(chan struct{})
 	var lostControl int32
+	var notStarted int32 = -1
 	go func() {
 		defer close(controllerDone)
-		wait := 2 * time.Second
+		// A callback whose gate is about to be opened must have been started: ForEachAsync runs the
+		// calls independently of each other, so every call starts no matter how long the others take.
+		// If one has not started after startWatchdog although the process is otherwise idle (all
+		// earlier callbacks are parked on their gates), the calls are not independent (for example a
+		// bounded worker pool): with this release order ForEachAsync can never complete. Like the C04
+		// watchdog this clock can only turn a hang into a report; a goroutine of a correct
+		// implementation is runnable from the moment ForEachAsync spawned it.
+		const startWatchdog = 20 * time.Second
+		wait := startWatchdog
 		for _, s := range order {
 			select {
 			case <-arrived[s]:
 			case <-time.After(wait):
-				// the callback for this slot has not started although earlier ones are blocked: the
-				// implementation does not start all callbacks at once. Only ordering control is lost
-				// (never the verdict); stop waiting long for the remaining slots.
+				if wait == startWatchdog {
+					atomic.StoreInt32(&notStarted, int32(s))
+				}
 				atomic.AddInt32(&lostControl, 1)
-				wait = 5 * time.Millisecond
+				wait = 5 * time.Millisecond // drain quickly; the verdict is already decided
 			}
 			close(gates[s])
 		}
@@ -191,6 +200,9 @@ func runGated(c *C15Case, st *Stats) error {
 	deadline := time.Now().Add(3 * time.Second)
 	for int(atomic.LoadInt32(&completed)) < n && time.Now().Before(deadline) {
 		time.Sleep(time.Millisecond)
+	}
+	if ns := atomic.LoadInt32(&notStarted); ns >= 0 {
+		return errf("ForEachAsync had not started the call for element/field %d twenty seconds after it was invoked, while the harness was holding back the other callbacks (release order %v, n=%d, object=%v, GOMAXPROCS %d): the calls are not run independently, so ForEachAsync cannot complete when one callback is delayed until a later one has started", ns, order, n, c.Object, c.Procs)
 	}
 	if atReturn != n {
 		return errf("ForEachAsync returned while only %d of %d callbacks had returned (object=%v, release order %v, GOMAXPROCS %d)", atReturn, n, c.Object, order, c.Procs)
